@@ -35,6 +35,13 @@ datetime64/timedelta64 only for the order reductions (min/max/arg*), split_every
 {2, 3, None, per-axis dict with values 2|3}, ddof in {0, 1, 2}, dtype= only as a same-kind cast
 to float32/float64/complex128 (and int64 for sum/prod/scans of integer data).
 
+Data flavour 'nanlanes' (added after a seeded change in the all-NaN fallback of _nanargmin/_nanargmax escaped): for
+the nan* operations on >= 2-d float arrays the NaNs follow the chunk grid — along the reduction axis whole chunk
+segments of some lanes are NaN (the lane keeps values in another segment, so NumPy does not raise) and the other
+lanes of the same blocks get scattered NaNs; counters ``nanlane_cases`` and
+``nanlane_allnan_segment_next_to_mixed_lane`` (a block really holds an all-NaN lane segment next to a mixed lane)
+have floors.  The fixed (4,3) example of that change is enumerated over all its 32 chunkings.
+
 Labels: ``<op>:<input-feature predicate>:<symptom>``; the predicate depends on the symptom (shape ->
 keepdims / axis=() / 0-d; dtype -> input kind or float32, dtype= given, q kind; values -> count<=ddof,
 |k|==n, scan method, non-finite content).  split_every values, chunk counts, seeds and exception types never
@@ -85,24 +92,30 @@ RULE = ("cases = (operation, shape, dtype, data seed/flavour, chunking, axis sel
         "cumsum sequential, cumsum blelloch, argmin} x all axis choices (None, every int incl. negative, every non-empty "
         "axis tuple, ()) x keepdims x split_every {2, None} on an int64 array with ties and a float64 array with NaN. "
         "Random part: 31 operations (scans x 2 methods), shapes 0-3 d with axis lengths 1-6 (one axis up to 14), 10 dtypes, five data "
-        "flavours (small dyadic with NaN/inf/-0.0, clean, inf, ties, non-dyadic normal), random chunkings. "
+        "flavours (small dyadic with NaN/inf/-0.0, clean, inf, ties, non-dyadic normal) plus 'nanlanes' for the nan* "
+        "operations (NaN segments aligned with the chunk grid: a block holds an all-NaN lane next to partially-NaN lanes), "
+        "random chunkings. "
         "non-trivial = some axis split into >= 2 chunks; distinct = distinct (op, shape, dtype, chunks, axis, keepdims, "
         "split_every, parameters).")
 ASSUMPTIONS = ["NumPy 2.x defines expected values, dtype and shape", "sync scheduler",
                "moment / topk / argtopk have no NumPy function: the reference is their documented definition"]
 BUDGET = {"quick": 40, "thorough": 540}
-FLOORS = {  # ~45 % of the counts measured on the unchanged tree (quick: 5456 cases / 4154 distinct; thorough: 111856 / 79764)
-    "quick": {"evaluations": 2400, "distinct_nontrivial": 1800,
-              "counters": {"compared": 2900, "arg_compared": 650, "combine_level_runs": 600, "split_every_pairs": 1200,
-                           "scan_blelloch": 200, "scan_sequential": 200, "topk_checked": 210, "lazy_meta_checked": 3600},
+FLOORS = {  # ~45 % of the counts measured on the current tree (quick: 5904 cases / ~4780 distinct)
+    "quick": {"evaluations": 2600, "distinct_nontrivial": 2100,
+              "counters": {"compared": 3200, "arg_compared": 830, "combine_level_runs": 660, "split_every_pairs": 1400,
+                           "scan_blelloch": 190, "scan_sequential": 190, "topk_checked": 160, "lazy_meta_checked": 4000,
+                           "nanlane_cases": 600, "nanlane_allnan_segment_next_to_mixed_lane": 140},
               "sets": {"op_axis_kind": 120}, "max_skipped_fraction": 0.2},
-    "thorough": {"evaluations": 50000, "distinct_nontrivial": 35000,
+    "thorough": {"evaluations": 50000, "distinct_nontrivial": 38000,
                  "counters": {"compared": 51000, "arg_compared": 14000, "combine_level_runs": 12000, "split_every_pairs": 16000,
-                              "scan_blelloch": 4700, "scan_sequential": 4800, "topk_checked": 6000, "lazy_meta_checked": 65000},
+                              "scan_blelloch": 4300, "scan_sequential": 4400, "topk_checked": 5100, "lazy_meta_checked": 65000,
+                              "nanlane_cases": 12500, "nanlane_allnan_segment_next_to_mixed_lane": 2800},
                  "sets": {"op_axis_kind": 120}, "max_skipped_fraction": 0.2},
 }
 EXHAUSTIVE_SPACE = ("all chunkings of shapes (4,) and (2,3) x {sum, max, mean, cumsum(sequential), cumsum(blelloch), argmin} "
-                    "x all axis choices x keepdims x split_every in {2, None} x {int64 with ties, float64 with NaN}")
+                    "x all axis choices x keepdims x split_every in {2, None} x {int64 with ties, float64 with NaN}; "
+                    "all 32 chunkings of the (4,3) nan-lane array [[nan,nan,7],[nan,1,9],[4,5,8],[3,6,nan]] x "
+                    "{nanargmin, nanargmax, nanmin, nanmax, nansum, nanmean, nanvar} x axis {0,1} x split_every {2, None}")
 CLAIM = ("Every generated reduction / scan / selection was computed by the real dask.array for one or two split_every "
          "settings and compared with NumPy on the same data (shape, dtype, values within the reassociation tolerance, "
          "integers exactly), with the other split_every setting and with its own lazy metadata; arg-reductions are "
@@ -111,17 +124,9 @@ CLAIM = ("Every generated reduction / scan / selection was computed by the real 
 LEVEL_NOTE = "NumPy is the reference; domain limited to what the statement and quantifier name (see module docstring)"
 TECHNIQUE = "runtime monitoring: NumPy differential oracle over generated inputs, complete small chunking spaces, split_every cross-check"
 
-PENDING = {  # genuine on the unchanged tree; witnesses, locations and fix diffs in findings_proposed/C22.md
-    "arg-reduction:axis=None&ndim>1&non-leading-axis-split&ties:tie-break-differs":
-        "arg*(axis=None) on >=2-d arrays split along a non-leading axis resolves ties by chunk-grid order, not first occurrence (fix proposed)",
-    "argtopk:|k|==n&axis-split:raises@array/chunk.py:argtopk_aggregate":
-        "argtopk with |k| == axis length and >=2 chunks along the axis raises (chunk.argtopk returns the un-concatenated list; fix proposed)",
-    "blelloch-scan:dtype=given:values":
-        "method='blelloch' computes the block totals in the input dtype, ignoring dtype= (float32 precision; fix proposed)",
-    "moment:order<2&keepdims:shape": "moment(order 0|1) ignores keepdims (fix proposed)",
-    "moment:order<2&float32:dtype": "moment(order 0|1) always returns float64 (same shortcut; fix proposed)",
-    "quantile:float32&q-python-scalar:dtype": "quantile(float32, python-scalar q) returns float64, NumPy float32 (fix proposed)",
-    "nanquantile:float32&q-python-scalar:dtype": "nanquantile: same lines as quantile (fix proposed)",
+PENDING = {  # still genuine on the current tree (known_findings.d/batch4.json); witnesses in findings_proposed/C22.md.
+    # Fixed in /repo meanwhile (labels no longer expected): arg-reduction tie-break, argtopk |k|==n, blelloch dtype=,
+    # moment order<2 (shape, dtype), quantile/nanquantile float32 python-scalar q.
     "nanvar:count<=ddof:values": "nanvar/nanstd with ddof == number of valid elements gives inf, np.nanvar documents NaN (no fix)",
     "nanquantile:nonfinite:values": "nanquantile fast path (last axis, linear) gives +-inf where NumPy computes inf-inf = NaN (no fix)",
     "arg-reduction:axis=int&nan&lane-extreme-is-inf:raises@array/reductions.py:nanarg_agg":
@@ -132,6 +137,9 @@ PENDING = {  # genuine on the unchanged tree; witnesses, locations and fix diffs
 # keeps zero-length inputs out of C22 and C25 already reports the zero-size-chunk defects of scans / var / min / max.
 # With 0.12 the unchanged tree shows ~15 further label classes `<op>:zero-size-chunk...` (see final report / lead).
 ZERO_SIZE_CHUNK_FRACTION = 0.0
+
+NANLANE_OPS = ["nanargmin", "nanargmax", "nanargmin", "nanargmax", "nanmin", "nanmax", "nansum", "nanprod", "nanmean",
+               "nanvar", "nanstd", "nancumsum", "nancumprod", "nanmedian", "nanquantile"]
 
 RED = ["sum", "prod", "min", "max", "any", "all", "mean", "var", "std",
        "nansum", "nanprod", "nanmin", "nanmax", "nanmean", "nanvar", "nanstd", "moment"]
@@ -236,13 +244,24 @@ def cases(tier, seed):
                 for axis in _axis_choices(nd, "arg"):
                     for kd in (False, True):
                         yield dict(base, op="argmin", axis=axis, keepdims=kd, ses=[2, None])
+    # nan-lanes: a block in which one lane along the axis is entirely NaN while another lane mixes NaN and values
+    for chunks in A.all_chunkings((4, 3)):
+        base = {"space": "exhaustive", "shape": [4, 3], "dtype": "float64", "seed": 0, "flavour": "fixed43",
+                "chunks": [list(c) for c in chunks]}
+        for op in ("nanargmin", "nanargmax", "nanmin", "nanmax", "nansum", "nanmean", "nanvar"):
+            for axis in (0, 1):
+                yield dict(base, op=op, axis=axis, keepdims=False, ses=[2, None], **({"ddof": 0} if op == "nanvar" else {}))
     # ---- random part ------------------------------------------------------------------------
-    ops = RED + ARG + ARG + CUM + CUM + TOPK + TOPK + MED + QUANT
+    ops = RED + ARG + ARG + CUM + CUM + TOPK + TOPK + MED + QUANT + NANLANE_OPS
     n = 3600 if tier == "quick" else 110000
     for _ in range(n):
         op = rng.choice(ops)
         fam = family(op)
         shape = _rand_shape(rng, fam)
+        nanlanes = op in NANLANE_OPS and rng.random() < 0.45
+        if nanlanes and len(shape) < 2:
+            shape = [rng.randint(2, 6), rng.randint(2, 6)] + ([rng.randint(1, 3)] if rng.random() < 0.3 else [])
+            rng.shuffle(shape)
         nd = len(shape)
         size = 1
         for s in shape:
@@ -255,8 +274,12 @@ def cases(tier, seed):
             dtype = rng.choice(A.REAL + ["float64"])
         else:
             dtype = rng.choice(NUM)
+        if nanlanes:
+            dtype = rng.choice(("float64", "float64", "float32"))
         isfloat = dtype.startswith(("float", "complex"))
-        if fam == "topk":
+        if nanlanes:
+            flavour = "nanlanes"
+        elif fam == "topk":
             flavour = rng.choice(("clean", "ties", "inf", "normal") if isfloat else ("clean", "ties"))
         elif fam == "arg":
             flavour = rng.choice(("small", "ties", "ties", "nan", "clean", "inf"))
@@ -269,6 +292,8 @@ def cases(tier, seed):
             cs = d["chunks"][rng.randrange(nd)]
             cs.insert(rng.randint(0, len(cs)), 0)
         axis = _rand_axis(rng, nd, fam)
+        if nanlanes and axis is None and fam != "cum" and rng.random() < 0.8:
+            axis = rng.randrange(-nd, nd)      # the lane structure matters along an int / tuple axis
         d["axis"] = axis
         red_axes = _norm_axes(axis, nd)
         if fam in ("red", "arg", "topk"):
@@ -338,6 +363,11 @@ def _data0(case):
     isf = dtype.startswith("float")
     if flav == "small":
         return A.rand_data(seed, shape, dtype, special=True)
+    if flav == "fixed43":
+        nan = np.nan
+        return np.array([[nan, nan, 7], [nan, 1, 9], [4, 5, 8], [3, 6, nan]], dtype=dtype)
+    if flav == "nanlanes":
+        return _nanlanes(case, r)
     if flav == "ties":
         if dtype == "bool" or dtype.startswith(("datetime", "timedelta")):
             return A.rand_data(seed, shape, dtype, special=False)
@@ -363,6 +393,41 @@ def _data0(case):
             flat[r.integers(0, n)] = -np.inf
         a = flat.reshape(shape)
     return a
+
+
+def _nanlanes(case, r):
+    """Float data whose NaNs follow the chunk grid: along the (first) reduction axis whole chunk-segments of some
+    lanes are NaN (the lane keeps valid values in another segment, so NumPy does not raise), other lanes of the
+    same blocks get scattered NaNs; half of the time the lane's extreme values sit next to the NaN segments."""
+    shape, dtype = tuple(case["shape"]), case["dtype"]
+    nd = len(shape)
+    red = _norm_axes(_axis(case.get("axis")), nd)
+    ax = red[0] if red else 0
+    a = np.moveaxis(A.rand_data(case["seed"], shape, dtype, special=False).copy(), ax, 0)   # view: axis first
+    base = a.copy()
+    sizes = [c for c in case["chunks"][ax] if c]
+    bounds = np.concatenate([[0], np.cumsum(sizes)]).astype(int)
+    nseg = len(sizes)
+    lanes = a.reshape(shape[ax], -1)          # view on `a` (moveaxis result is reshaped without copy when possible)
+    if not np.shares_memory(lanes, a):
+        a = np.ascontiguousarray(a)
+        lanes = a.reshape(shape[ax], -1)
+    nlanes = lanes.shape[1]
+    p_seg = r.choice((0.25, 0.4, 0.6))
+    for j in range(nlanes):
+        if nseg >= 2:
+            kill = [s for s in range(nseg) if r.random() < p_seg]
+            if len(kill) == nseg:
+                kill.pop(int(r.integers(0, nseg)))
+            for s_ in kill:
+                lanes[bounds[s_]:bounds[s_ + 1], j] = np.nan
+        # scattered NaNs in the remaining elements
+        m = r.random(shape[ax]) < 0.3
+        lanes[m, j] = np.nan
+        if np.isnan(lanes[:, j]).all():
+            k = int(r.integers(0, shape[ax]))
+            lanes[k, j] = base.reshape(shape[ax], -1)[k, j]
+    return np.ascontiguousarray(np.moveaxis(a, 0, ax))
 
 
 def _finite(a):
@@ -625,6 +690,20 @@ def run_case(case, ctx, _classify=True):
     ctx.distinct("op_axis_kind", (op, _axis_kind(axis), kd))
     if _has_zero_chunk(case):
         ctx.count("zero_size_chunk_cases")
+    if case["flavour"] in ("nanlanes", "fixed43") and x.ndim >= 2:
+        # does some block hold an all-NaN lane segment next to a lane that mixes NaN and values?  (the situation
+        # in which the per-block all-NaN fallback of the nan-arg reductions matters)
+        ax0 = red_axes[0] if red_axes else 0
+        xm = np.moveaxis(np.isnan(x), ax0, 0).reshape(x.shape[ax0], -1)
+        b = np.concatenate([[0], np.cumsum([c for c in chunks[ax0] if c])]).astype(int)
+        hit = False
+        for lo, hi in zip(b, b[1:]):
+            seg = xm[lo:hi]
+            if seg.all(axis=0).any() and (seg.any(axis=0) & ~seg.all(axis=0)).any():
+                hit = True
+        ctx.count("nanlane_cases")
+        if hit:
+            ctx.count("nanlane_allnan_segment_next_to_mixed_lane")
     dx = da.from_array(x, chunks=chunks)
 
     # ---- build the NumPy reference and the dask thunk -----------------------------------------
